@@ -30,7 +30,7 @@ def tasks(tier, seed):
     # lemma of the monitor reduction: no lost wake-up in the stream (every consumer operation that frees buffer space
     # notifies the waiting producer, every producer operation that makes data / the end available notifies the consumer)
     import c15
-    for t in c15.tasks(tier, seed)[0]:
+    for t in c15.tasks('quick', seed)[0]:
         if t.tid == 'stream.first_setBufferSize':
             t.tid = 'wakeup.stream'
             t.opts = dict(t.opts, msg_filter='notified')
